@@ -508,21 +508,21 @@ pub fn retain<T: Q, const N: usize, const PAT: u32>(pre: Pre, tables: Tables, g:
         }
     }
     let mut idx = 0usize;
-    let mut seen: u16 = 0;
+    let mut seen: u32 = 0;
     let mut bad_view = false;
     let mut want = Tab::empty();
     if mutable {
         q.retain_mut(|i, p| {
-            bad_view |= want0.get(i.key & 15) != Some((i.pay, p.0)) || seen & (1u16 << (i.key & 15)) != 0;
-            seen |= 1u16 << (i.key & 15);
+            bad_view |= want0.get(i.key & 31) != Some((i.pay, p.0)) || seen & (1u32 << (i.key & 31)) != 0;
+            seen |= 1u32 << (i.key & 31);
             let c = if idx < N { idx } else { 0 };
             p.0 = rew[c];
             i.pay = rpay[c];
             let keep = PAT & (1u32 << c) != 0;
             if keep {
-                want.set(i.key & 15, rpay[c], rew[c]);
+                want.set(i.key & 31, rpay[c], rew[c]);
                 if !g.pay {
-                    want.any_payload(i.key & 15);
+                    want.any_payload(i.key & 31);
                 }
             }
             idx += 1;
@@ -530,12 +530,12 @@ pub fn retain<T: Q, const N: usize, const PAT: u32>(pre: Pre, tables: Tables, g:
         });
     } else {
         q.retain(|i, p| {
-            bad_view |= want0.get(i.key & 15) != Some((i.pay, p.0)) || seen & (1u16 << (i.key & 15)) != 0;
-            seen |= 1u16 << (i.key & 15);
+            bad_view |= want0.get(i.key & 31) != Some((i.pay, p.0)) || seen & (1u32 << (i.key & 31)) != 0;
+            seen |= 1u32 << (i.key & 31);
             let c = if idx < N { idx } else { 0 };
             let keep = PAT & (1u32 << c) != 0;
             if keep {
-                want.set(i.key & 15, i.pay, p.0);
+                want.set(i.key & 31, i.pay, p.0);
             }
             idx += 1;
             keep
